@@ -86,11 +86,13 @@ Theorem C03_nonvacuous :
 Proof. reflexivity. Qed.
 Print Assumptions C03_nonvacuous.
 
-(* THE LOSSLESS EDGE.  A publisher emits groups (all data parts of one id, then the heartbeat carrying the topic
-   list), ids strictly increasing, topic names visible, distinct, non-empty.  The channel hands them to the
-   consumer's SUB socket in order ([fed]).  Everything else is arbitrary: when messages arrive relative to the
-   calls, what each poll reports and when, the timeouts, the clock, out-of-band traffic, PUSH back-pressure.
-   Then the frames handed to the application are exactly the first k published frames - id, topics, payloads. *)
+(* THE LOSSLESS EDGE.  A publisher emits groups (the data parts of one id, then the heartbeat carrying the topic
+   list), ids strictly increasing, topic names distinct and non-empty - any number of them, hidden ('_metrics') ones
+   and frames without any visible topic included.  The channel hands them to the consumer's SUB socket in order
+   ([fed]; parts the subscription filters out may be "delivered" too and are dropped there).  Everything else is
+   arbitrary: when messages arrive relative to the calls, what each poll reports and when, the timeouts, the clock,
+   out-of-band traffic, PUSH back-pressure.  Then the frames handed to the application are exactly the first k
+   published frames - id, visible topics, payloads. *)
 Theorem C03_edge_lossless :
   forall gs cid ll its,
     Forall group_wf gs -> ids_increasing MSG_ID_INITIAL_PREV gs -> fed (stream gs) its ->
@@ -99,40 +101,44 @@ Proof. exact edge_lossless. Qed.
 Print Assumptions C03_edge_lossless.
 
 (* ... and none of them is dropped on the floor: when everything published has been delivered and the consumer
-   (still alive) has read its socket empty, k is the number of published frames *)
+   (alive, not about to return a set it already holds) has read its socket empty, k is the number of published frames *)
 Theorem C03_edge_nothing_dropped :
   forall gs, Forall group_wf gs -> ids_increasing MSG_ID_INITIAL_PREV gs ->
   forall cid ll its st2 o2,
     fed (stream gs) its -> rrun Repaired (init_receiver cid false ll [c0]) its = (st2, o2) ->
-    control st2 <> Dead -> rest_of (stream gs) its = [] -> (forall s, In s (srcs st2) -> queue s = []) ->
+    control st2 <> Dead -> (forall f, control st2 <> InP2 f) ->
+    rest_of (stream gs) its = [] -> (forall s, In s (srcs st2) -> queue s = []) ->
     frames o2 = map frame_of gs.
 Proof. exact edge_drained_all. Qed.
 Print Assumptions C03_edge_nothing_dropped.
 
-(* Non-vacuity of the edge theorems: two frames (the first with two topics) arriving while the consumer is
-   between and inside calls, one call timing out in the middle of a frame: both are handed over, complete *)
+(* Non-vacuity of the edge theorems: three frames - two visible topics plus a hidden one; a frame with only a hidden
+   topic (handed over as the empty set); one topic - arriving while the consumer is between and inside calls, one call
+   timing out in the middle of a frame: all are handed over, complete, in order *)
 Definition ex_gs : list group :=
-  [ {| gid := 0; gsid := 9; parts := [([109], 10); ([100], 11)] |};
+  [ {| gid := 0; gsid := 9; parts := [([109], 10); ([95; 104], 77); ([100], 11)] |};
+    {| gid := 1; gsid := 9; parts := [([95; 109], 78)] |};
     {| gid := 3; gsid := 9; parts := [([109], 12)] |} ].
+Definition ex_m (k : nat) : wmsg := nth k (stream ex_gs) (hb_msg {| gid := 0; gsid := 0; parts := [] |}).
 Definition ex_its : list ritem :=
-  let s := stream ex_gs in
-  [ IDeliver 0 (nth 0 s (hb_msg (hd {| gid := 0; gsid := 0; parts := [] |} ex_gs)));
+  [ IDeliver 0 (ex_m 0);
+    IDeliver 0 {| w_wtopic := [95; 104; 47]; w_sid := 9; w_mid := 0; w_topics := [[109]; [95; 104]; [100]]; w_bal := 0; w_pay := 77 |};  (* filtered *)
     ICall None (Some 5) 0; IPoll [0%nat] 0; IPoll [] 1; IPoll [] 9000000;     (* timed out holding half a frame *)
-    IDeliver 0 (nth 1 s (hb_msg (hd {| gid := 0; gsid := 0; parts := [] |} ex_gs)));
-    IDeliver 0 (nth 2 s (hb_msg (hd {| gid := 0; gsid := 0; parts := [] |} ex_gs)));
+    IDeliver 0 (ex_m 1); IDeliver 0 (ex_m 2);
     ICall None None 10000000; IPoll [0%nat] 10000000; IPoll [] 10000000;      (* frame 0 *)
-    IDeliver 0 (nth 3 s (hb_msg (hd {| gid := 0; gsid := 0; parts := [] |} ex_gs)));
-    IDeliver 0 (nth 4 s (hb_msg (hd {| gid := 0; gsid := 0; parts := [] |} ex_gs)));
-    ICall None None 20000000; IPoll [0%nat] 20000000; IPoll [0%nat] 20000000; IPoll [] 20000000;   (* stale heartbeat, frame 3 *)
-    ICall None (Some 1) 30000000; IPoll [0%nat] 30000000; IPoll [] 40000000; IPoll [] 50000000 ].
+    IDeliver 0 (ex_m 3);
+    ICall None None 20000000; IPoll [0%nat] 20000000; IPoll [0%nat] 20000000; IPoll [] 20000000;   (* stale heartbeat; frame 1 = {} *)
+    IDeliver 0 (ex_m 4); IDeliver 0 (ex_m 5);
+    ICall None None 30000000; IPoll [0%nat] 30000000; IPoll [] 30000000;      (* frame 3 *)
+    ICall None (Some 1) 40000000; IPoll [0%nat] 40000000; IPoll [] 50000000; IPoll [] 60000000 ].
 Theorem C03_edge_nonvacuous :
   Forall group_wf ex_gs /\ ids_increasing MSG_ID_INITIAL_PREV ex_gs /\ fed (stream ex_gs) ex_its /\
   rest_of (stream ex_gs) ex_its = [] /\
   (let '(st2, o2) := rrun Repaired (init_receiver 7 false false [c0]) ex_its in
-   control st2 = Idle /\ map queue (srcs st2) = [[]] /\ frames o2 = map frame_of ex_gs).
+   control st2 = Idle /\ map queue (srcs st2) = [[]] /\ frames o2 = map frame_of ex_gs /\
+   map (fun fr => (fst fr, map fst (snd fr))) (frames o2) = [(0, [[109]; [100]]); (1, []); (3, [[109]])]).
 Proof.
-  split.
-  { repeat constructor; cbn; try discriminate; intuition discriminate. }
-  split; [cbn; repeat split; reflexivity|]. split; [cbn; repeat (try (split; [reflexivity|]); try (eexists; split; [reflexivity|])); exact I|]. split; [reflexivity|]. vm_compute. auto.
+  split; [apply Forall_forall; intros g Hg; apply group_wfb_sound; revert g Hg; apply Forall_forall; repeat constructor|].
+  split; [cbn; repeat split; reflexivity|]. split; [apply fedb_sound; vm_compute; reflexivity|]. split; [vm_compute; reflexivity|]. vm_compute. auto.
 Qed.
 Print Assumptions C03_edge_nonvacuous.
